@@ -11,11 +11,12 @@ KNOWN_PATH = os.path.join(VERIF, 'known_findings.json')
 
 
 class Ob:
-    __slots__ = ('rule', 'file', 'qual', 'construct', 'ok', 'detail', 'witness')
+    __slots__ = ('rule', 'file', 'qual', 'construct', 'ok', 'detail', 'witness', 'reason')
 
     def __init__(self, rule, file, qual, construct, ok, detail, witness):
         self.rule, self.file, self.qual, self.construct = rule, file, qual, construct
         self.ok, self.detail, self.witness = ok, detail, witness
+        self.reason = None
 
     @property
     def key(self):
@@ -24,9 +25,11 @@ class Ob:
     def as_dict(self):
         d = {'rule': self.rule, 'file': self.file, 'function': self.qual,
              'construct': self.construct, 'ok': self.ok}
-        if self.detail:
+        if self.detail and not self.ok:
             d['detail'] = self.detail
-        if self.witness is not None:
+        if self.reason:
+            d['accepted_because'] = self.reason
+        if self.witness is not None and not self.ok:
             d['witness'] = self.witness
         return d
 
@@ -58,8 +61,9 @@ class Report:
         """Declare a rule and its one-line statement (printed in evidence)."""
         self.rules_doc[rule] = text
 
-    def ob(self, rule, file, qual, construct, ok, detail='', witness=None):
+    def ob(self, rule, file, qual, construct, ok, detail='', witness=None, reason=None):
         o = Ob(rule, file, qual, construct, bool(ok), detail, witness)
+        o.reason = reason
         self.obs.append(o)
         return o.ok
 
@@ -153,7 +157,7 @@ class Report:
         per_rule_seen = {}
         for o in self.obs:
             n = per_rule_seen.get(o.rule, 0)
-            if n < 3 or not o.ok:
+            if n < 3 or not o.ok or o.reason:
                 samples.append(o.as_dict())
                 per_rule_seen[o.rule] = n + 1
         distinct = len({o.key for o in self.obs})
